@@ -287,6 +287,10 @@ def rule_prefix_clause(ctx):
 def rule_range_bounds(ctx):
     """R-C18-2: the upper bound of every range idiom is dir_range_upper(lower bound)."""
     model = ctx.sql
+    # a statement whose text cannot be folded cannot be classified: that is a lost site, never a pass
+    if model.failing() or model.unresolved:
+        bad = (model.failing() or [None])[0]
+        raise AnalysisError(f"SQL census incomplete: {bad.site.where if bad else model.unresolved[0].where}")
     # 1. dir_range_upper itself, folded on probes
     fi = ctx.prog.func("path.dir_range_upper")
     from ..engine.source import RepoFunc
